@@ -4,10 +4,11 @@
    internal/blocksignificant/blocksignificant.hpp, native/subnormal.hpp tables via UVerif.Generated).
   Transcribed branch by branch; bit loops are written as the shifts/masks they compute.
   The code is modelled AS IT IS, including
-    (D3, bitwise operator==, was repaired in /repo by d3ba933: the model follows the repaired code)
+    D3  operator== compares blocks (so +0 != -0; the repair d3ba933 was withdrawn, a library test encodes the behaviour),
     D4  convert(): saturating configurations return the inf encoding when rounding lands on it,
     D5  convert(): blocktriples wider than 64 bits are truncated, not rounded, and not remapped,
-    D6  operator-- / operator++ on a single block do not mask the bits above nbits.
+    (D6, decrement carrying out of nbits, isminnegencoding() for > 4 blocks and increment / decrement on −0 and on
+     the zero aliases were repaired in /repo: the model follows the repaired code)
   Encodings are canonical naturals < 2^nbits unless stated (inc/dec return the whole block storage).
 -/
 import UVerif.Basic
@@ -300,12 +301,12 @@ def arithOp (op : String) (c : Cfg) (a b : Nat) : Nat :=
 
 /-! ### comparisons (cfloat_impl.hpp:3356-3422) -/
 
-/-- `operator==` (after the repair d3ba933): NaN unequal to everything; any two encodings that `iszero()` classifies
-    as zero are equal (+0 == −0, and the exponent-0 aliases without subnormals); otherwise block-wise equality -/
+/-- `operator==`: NaN unequal to everything, otherwise block-wise equality (D3: +0 ≠ −0, and without subnormals the
+    exponent-0 aliases of zero differ from each other). The repair d3ba933 was withdrawn — the library's own
+    static/cfloat/logic/logic.cpp uses bit-pattern equality as its reference for == and != — so the model follows the
+    block-wise code of branch `final` again and the finding cfloat.eq.bitwise_zero is recorded. -/
 def eq (c : Cfg) (a b : Nat) : Bool :=
-  if isNan c a || isNan c b then false
-  else if isZero c a && isZero c b then true
-  else a == b
+  if isNan c a || isNan c b then false else a == b
 
 def lt (c : Cfg) (a b : Nat) : Bool :=
   if isNan c a || isNan c b then false
@@ -339,16 +340,23 @@ def ge (c : Cfg) (a b : Nat) : Bool := if isNan c a || isNan c b then false else
 /-- `setfraction(all ones)` -/
 def setFracOnes (c : Cfg) (b : Nat) : Nat := b >>> c.fbits <<< c.fbits ||| (2 ^ c.fbits - 1)
 
-/-- `isminnegencoding()` — the multi-block variants; the single-block variant is not used by ++ -/
+/-- `isminnegencoding()` — the multi-block variants; the single-block variant is not used by ++.
+    More than four blocks: block 0 is 1, the middle blocks 1 … nrBlocks−2 are zero (all of them since the repair
+    "isminnegencoding() must compare every middle block"), the top block is the sign bit. -/
 def isMinNegEnc (c : Cfg) (b : Nat) : Bool :=
   let n := c.nrBlocks
   let B := c.bt
   let blk (i : Nat) : Nat := (b >>> (i * B)) % 2 ^ B
   let signBlk := 2 ^ ((c.nbits - 1) % B)
   if n ≤ 4 then b == c.signMask + 1
-  else blk 0 == 1 && (List.range (n - 3)).all (fun j => blk (j + 1) == 0) && blk (n - 1) == signBlk
+  else blk 0 == 1 && (List.range (n - 2)).all (fun j => blk (j + 1) == 0) && blk (n - 1) == signBlk
 
-def incr (c : Cfg) (a : Nat) : Nat :=
+/-- `if (iszero()) setzero();` — the first statement of operator++ and operator-- since the repair "must step from
+    every encoding of zero as they do from +0": −0 and, without subnormals, every exponent-0 pattern become +0 -/
+def stepStart (c : Cfg) (a : Nat) : Nat := if isZero c a then 0 else a
+
+def incr (c : Cfg) (a0 : Nat) : Nat :=
+  let a := stepStart c a0
   let B := c.bt
   let store := 2 ^ (c.nrBlocks * B)
   let sgn := c.signMask
@@ -371,12 +379,14 @@ def incr (c : Cfg) (a : Nat) : Nat :=
         let b0 := if !c.sub && isZero c a then setFracOnes c a else a
         (b0 + 1) % store
 
-def decr (c : Cfg) (a : Nat) : Nat :=
+def decr (c : Cfg) (a0 : Nat) : Nat :=
+  let a := stepStart c a0
   let B := c.bt
   let store := 2 ^ (c.nrBlocks * B)
   let sgn := c.signMask
   if c.nrBlocks = 1 then
-    if c.signOf a then (a + 1) % store
+    -- `++_block[MSU]; _block[MSU] &= MSU_MASK;` (the mask since the repair of D6)
+    if c.signOf a then (a + 1) % store % 2 ^ c.nbits
     else
       let b1 :=
         if a == 0 then
@@ -385,11 +395,11 @@ def decr (c : Cfg) (a : Nat) : Nat :=
       if !c.sub && isDenormal c (b1 % 2 ^ c.nbits) then 0 else b1
   else
     if c.signOf a then
-      -- ripple carry through the lower blocks, then `++_block[MSU]` in block arithmetic
+      -- ripple carry through the lower blocks, then `++_block[MSU]` in block arithmetic, `&= MSU_MASK` (repair of D6)
       let low := 2 ^ ((c.nrBlocks - 1) * B)
       let lo := a % low
       let hi := a / low
-      if lo + 1 < low then a + 1 else ((hi + 1) % 2 ^ B) * low
+      if lo + 1 < low then a + 1 else ((hi + 1) % 2 ^ B % 2 ^ (c.nbits - (c.nrBlocks - 1) * B)) * low
     else
       if isZeroEnc c a then
         (if c.sub then sgn + 1 else sgn + 2 ^ c.fbits)
@@ -424,8 +434,8 @@ def valToRat : Val → Rat
 /-- `to_native<TargetFloat>` computed IN the target precision (eb, fb), step by step as the code does: the
     fraction is accumulated bit by bit (each partial sum rounded), then 1 + f and the product with the power of
     two are rounded; exponents outside (−64, 64) go through double `ipow`. For targets that hold the
-    configuration every step is exact and this coincides with `toNative`; `to_int()` uses it with float for
-    configurations of more than 23 fraction bits. -/
+    configuration every step is exact and this coincides with `toNative`; `to_int()` / `to_long_long()` use it with
+    double (`to_int()` went through float before the repair "to_int() must not round the value to float"). -/
 def toNativeIn (c : Cfg) (eb fb : Nat) (b : Nat) : Val :=
   let s := c.signOf b
   if isZero c b then .fin s 0
@@ -463,8 +473,9 @@ def postProcess (c : Cfg) (b : Nat) : Nat :=
     else if isNanT c b true then setInf c true
     else b
 
-/-- NaN / infinity recognition of convert_ieee754 (cfloat_impl.hpp:2441-2466): only the three NaN fraction
-    patterns built from `ieee754_parameter<Real>::qnanmask/snanmask` are recognised -/
+/-- NaN / infinity recognition of convert_ieee754 (cfloat_impl.hpp:2441-2466): the three NaN fraction patterns built
+    from `ieee754_parameter<Real>::qnanmask/snanmask`, infinity, and (since the repair "must convert a NaN with any
+    payload to a NaN") every other fraction: quiet when `rawFraction & fmask & qnanmask` is non-zero, else signalling -/
 def ieeeSpecial (c : Cfg) (seb sfb : Nat) (qmask smask : Nat) (bits : Nat) : Option Nat :=
   let s := bits.testBit (seb + sfb)
   let rawExp := (bits >>> sfb) % 2 ^ seb
@@ -474,7 +485,7 @@ def ieeeSpecial (c : Cfg) (seb sfb : Nat) (qmask smask : Nat) (bits : Nat) : Opt
     if rawFrac = (fmask &&& smask) ∨ rawFrac = (fmask &&& (qmask ||| smask)) then some (snan c)
     else if rawFrac = (fmask &&& qmask) then some (qnan c)
     else if rawFrac = 0 then some (setInf c s)
-    else none
+    else some (if rawFrac &&& (fmask &&& qmask) ≠ 0 then qnan c else snan c)
   else none
 
 /-- source format: `seb` exponent bits, `sfb` fraction bits, NaN-recognition masks from ieee754_parameter -/
@@ -531,23 +542,28 @@ def fromIeee (c : Cfg) (seb sfb : Nat) (qmask smask : Nat) (bits : Nat) : Nat :=
 
 /-! ### conversion from native integers (convert_signed/unsigned_integer + round<>, cfloat_impl.hpp:2269-2342, 2855) -/
 
-/-- `round<srcbits,uint64_t>(raw, exponent)` : returns (fraction bits, exponent) -/
+/-- `round<srcbits,uint64_t>(raw, exponent)` : returns (fraction bits, exponent). After the repairs "sticky mask
+    must include the bit below the round bit" (sticky = every bit below the round bit) and "must clear the fraction
+    when rounding carries into the next binade" (carry ⇒ fraction 0, exponent + 1). -/
 def roundInt (c : Cfg) (srcbits : Nat) (raw : Nat) (exponent : Int) : Nat × Int :=
   let fh := c.fbits + 1
   if fh < srcbits then
     let shift := srcbits - fh - 1
     let guard := raw.testBit shift
     let round := shift ≥ 1 && raw.testBit (shift - 1)
-    let sticky := shift ≥ 2 && raw % 2 ^ (shift - 2) != 0
+    let sticky := shift ≥ 2 && raw % 2 ^ (shift - 1) != 0
     let r0 := raw >>> (shift + 1)
     let lsb := r0.testBit 0
     if guard then
       let r1 := (if lsb && !round && !sticky then r0 + 1 else r0) + (if round || sticky then 1 else 0)
-      if r1 = 2 ^ c.fbits then (r1 >>> 1, exponent + 1) else (r1, exponent)
+      if r1 = 2 ^ c.fbits then (0, exponent + 1) else (r1, exponent)
     else (r0, exponent)
   else ((raw <<< (fh - srcbits)) % 2 ^ 64, exponent)
 
-/-- `width` = 8·sizeof(Ty); `mag` = |value| as the uint64 the code computes; `neg` = sign -/
+/-- `width` = 8·sizeof(Ty); `mag` = |value| as the uint64 the code computes; `neg` = sign. There is NO range check
+    (finding cfloat.from_int.out_of_range; the repair "conversion from integers must project out-of-range values …" was
+    withdrawn because static/cfloat/math/fractional.cpp depends on the old conversion): the biased exponent is or-ed into
+    the 64-bit word as it is and `setbits` keeps the low nbits. -/
 def fromIntMag (c : Cfg) (width : Nat) (neg : Bool) (mag : Nat) : Nat :=
   if mag = 0 then 0
   else
@@ -559,7 +575,7 @@ def fromIntMag (c : Cfg) (width : Nat) (neg : Bool) (mag : Nat) : Nat :=
     let bits := ((hi <<< c.fbits) % 2 ^ 64) ||| fr
     bits % 2 ^ c.nbits
 
-/-- signed source of `width` bits (after repair 9d458c8): the magnitude is computed in unsigned arithmetic,
+/-- signed source of `width` bits (after repair 4dc3f74): the magnitude is computed in unsigned arithmetic,
     `s ? (0ull - static_cast<uint64_t>(rhs)) : static_cast<uint64_t>(rhs)`, i.e. |v| mod 2^64 for every v ≥ −2^63
     (also for the most negative value of the type) -/
 def fromSigned (c : Cfg) (width : Nat) (v : Int) : Nat :=
